@@ -197,7 +197,9 @@ def child_params(c, mode, pre, shift=0, atom=False):
         names = [x[0] for x in out]
         ren = dict(zip(names, reversed(names)))
         out = [(ren[n], l, f) for n, l, f in out]
-        mapping = {k: ren[v] for k, v in reversed(list(mapping.items()))}  # ... and the dictionary lists the parent's statistics backwards
+        mapping = {k: ren[v] for k, v in mapping.items()}
+    if "revdict" in mode and len(mapping) >= 2:
+        mapping = dict(reversed(list(mapping.items())))  # the dictionary lists the parent's statistics backwards
     if "track" in mode and not atom and len(out) < 2:
         used = {x[1] for x in out}
         l = next((a for a in reversed(c.alphabet) if a not in used), c.alphabet[-1])  # preferably independent of the others
@@ -992,4 +994,4 @@ PARAM_SETS = [
     [("k_0", "a", 0), ("k_1", "a", 0), ("k_2", "b", 0)],
     [("k_0", "b", 1)],
 ]
-MODES = ["", "rename", "merge", "merge rename", "drop", "drop merge rename", "drop rename last", "last merge", "track", "track rename last", "rename revnames", "revnames"]
+MODES = ["", "rename", "merge", "merge rename", "drop", "drop merge rename", "drop rename last", "last merge", "track", "track rename last", "rename revnames", "revnames", "revnames revdict", "revdict", "rename revnames revdict"]
